@@ -114,6 +114,9 @@ func c05History() []c05Step {
 		set("a", left, "absent", "outside", false),
 		set("a", in1, "outside", "inside", false),
 		{Cmd: w("FSET fk a speed 9"), Verb: "fset", ID: "a", Prev: "inside", New: "inside"},
+		// a deadline is given to / taken from an object that stays where it is: no movement, no message
+		{Cmd: w("EXPIRE fk a 1000"), Verb: "ttl", ID: "a", Prev: "inside", New: "inside"},
+		{Cmd: w("PERSIST fk a"), Verb: "ttl", ID: "a", Prev: "inside", New: "inside"},
 		set("a", in2, "inside", "inside", false),
 		set("a", right, "inside", "outside", false),
 		set("a", left, "outside", "outside", true),
@@ -156,6 +159,8 @@ func c05Expect(st c05Step, detect map[string]bool, accept map[string]bool, filte
 	all := func(d string) bool { return detect == nil || detect[d] }
 	acc := func(c string) bool { return len(accept) == 0 || accept[c] }
 	switch st.Verb {
+	case "ttl":
+		return nil, false
 	case "drop":
 		if acc("drop") {
 			// promised "for every fence with default detection"; optional otherwise
